@@ -23,7 +23,7 @@ TECHNIQUE = 'reference dataflow evaluator + write-protection/digest purity monit
 RULE = ('graphs from vlib.scalegen.gen_graph; non-trivial = graph with >=2 scales or properties on a non-channel level; distinct = (scale '
         'kinds + wiring, raw type, level)')
 ASSUMPTIONS = ['int raw data is converted to float64 before Linear/Polynomial/Table evaluation (NumPy promotion)']
-REQUIRED = ['daqmx_graphs_without_count', 'purity_cases', 'graphs', 'scaled_compared', 'windows_compared', 'lazy_compared', 'purity_checks', 'level:channel', 'level:group', 'level:root',
+REQUIRED = ['count_variant_reads', 'daqmx_graphs_without_count', 'purity_cases', 'graphs', 'scaled_compared', 'windows_compared', 'lazy_compared', 'purity_checks', 'level:channel', 'level:group', 'level:root',
             'status_scaled_cases', 'daqmx_graphs', 'precedence_cases', 'no_count_property', 'parents:first', 'parents:last', 'parents:later']
 N = {'quick': 10000, 'thorough': 1000000}
 
@@ -35,6 +35,8 @@ SENSOR_KINDS = ['Linear', 'Linear-identity', 'Polynomial', 'Table', 'RTD', 'Ther
 def gen_cases(tier, seed):
     for i in range(N[tier]):
         yield {'s': seed * 1000003 + i, 'fam': 'daqmx' if i % 10 == 9 else 'plain'}
+    for i in range(N[tier] // 50):
+        yield {'fam': 'count-variants', 's': seed * 1000003 + i}
     for k in SENSOR_KINDS:
         for t in ('f64', 'f32', 'i16', 'f64u'):
             for rep in range(2 if tier == 'quick' else 20):
@@ -139,6 +141,10 @@ def purity_case(case, ctx):
             b = ch[:]
             c = ch.read_data()
             d = ch.read_data(2, 3)
+            w1 = ch.read_data(0, 3)
+            w2 = ch.read_data(3, 3)
+            if not (C.img_equal(C.image(w1), C.image(b[0:3])) and C.img_equal(C.image(w2), C.image(b[3:6]))):
+                ctx.violation('same-length-windows-at-different-offsets-disagree/%s' % kind.split(':')[0], dict(info, w1=C.short(C.image(w1)), w2=C.short(C.image(w2)), full=C.short(C.image(b))))
             if ch.raw_data.tobytes() != before or not C.img_equal(C.image(ch.raw_data), C.expected_image(t, raw)):
                 ctx.violation('raw-data-modified-by-scaling/eager/%s' % kind.split(':')[0], info)
             if not (C.img_equal(C.image(a), C.image(b[:4])) and C.img_equal(C.image(b), C.image(c)) and C.img_equal(C.image(d), C.image(b[2:5]))):
@@ -164,9 +170,42 @@ def purity_case(case, ctx):
         ctx.violation('raw-data-modified-by-scaling/%s/%s' % (what, kind.split(':')[0]), dict(info, detail=det))
 
 
+def count_variants_case(case, ctx):
+    """The same NI_Scale[i] definitions with different NI_Number_Of_Scales, read one after another in one process:
+    the declared number of scales decides which scale is the output."""
+    from nptdms import TdmsFile
+    rng = random.Random('c13c/%d' % case['s'])
+    graph = SG.gen_graph(rng, depth=rng.randint(2, 4), kinds=['Linear', 'Polynomial', 'Linear', 'Add', 'Subtract'])
+    t = rng.choice(['i16', 'i32', 'f64', 'u8'])
+    dt = M.TYPES[t][1]
+    raw_vals = np.array([rng.randrange(0, 50) for _ in range(6)]).astype(dt)
+    order = list(range(1, len(graph) + 1))
+    rng.shuffle(order)
+    for k in order + order[:1]:
+        props = [('NI_Number_Of_Scales', 'u32', k)] + [p_ for i, sc in enumerate(graph) for p_ in SG.scale_props(i, sc)]
+        gname, cname = rng.choice(['g', "g/'x", 'a/b']), rng.choice(['c', 'Dev1/ai0', "it's", "x/'y", 'flow l/'])
+        level = rng.choice(['channel', 'group', 'group'])
+        segs = M.build_file(rng, [(gname, cname, t, 6, props if level == 'channel' else [])], nseg=1, nchunks=(1,),
+                            group_props={gname: props} if level == 'group' else None, values_fn=lambda p, tt, n: raw_vals)
+        ctx.evaluation()
+        ctx.count('count_variant_reads')
+        ctx.distinct(('count-variants', graph_sig(graph), k, level, cname))
+        want = SG.evaluate(graph[:k], raw_vals)
+        try:
+            got = TdmsFile.read(io.BytesIO(M.encode_file(segs)[0]))[gname][cname][:]
+        except Exception as ex:
+            ctx.violation('count-variants/raises/%s' % util.exc_key(ex), {'graph': graph, 'count': k, 'exc': util.exc_detail(ex)})
+            continue
+        if not close_enough(got, want, graph[:k], raw_vals):
+            ctx.violation('declared-number-of-scales-not-honoured-or-group-scaling-lost/%s' % level,
+                          {'graph': graph, 'count': k, 'group': gname, 'channel': cname, 'got': C.short(C.image(got)), 'want': C.short(C.image(np.asarray(want)))})
+
+
 def run_case(case, ctx):
     if case['fam'] == 'daqmx':
         return daqmx_case(case, ctx)
+    if case['fam'] == 'count-variants':
+        return count_variants_case(case, ctx)
     if case['fam'] == 'purity':
         return purity_case(case, ctx)
     from nptdms import TdmsFile
